@@ -501,3 +501,25 @@ func phiInputs(v ssa.Value) []ssa.Value {
 	walk(v)
 	return out
 }
+
+// sameValue: identical SSA values, or two loads of the same local variable cell (a parameter captured by a closure
+// is spilled to an Alloc and re-loaded at every use).
+func sameValue(a, b ssa.Value) bool {
+	if a == b {
+		return true
+	}
+	ua, ok1 := a.(*ssa.UnOp)
+	ub, ok2 := b.(*ssa.UnOp)
+	if ok1 && ok2 && ua.Op == token.MUL && ub.Op == token.MUL && ua.X == ub.X {
+		if al, ok := ua.X.(*ssa.Alloc); ok {
+			n := 0
+			for _, r := range *al.Referrers() {
+				if st, ok := r.(*ssa.Store); ok && st.Addr == al {
+					n++
+				}
+			}
+			return n <= 1
+		}
+	}
+	return false
+}
